@@ -131,6 +131,24 @@ class StmtMixin(object):
 
     def st_Delete(self, st):
         for t in st.targets:
+            if isinstance(t, ast.Subscript) and isinstance(t.slice, ast.Slice):
+                p = self.lvalue_path(t.value)
+                cont = self.ev(t.value)
+                if not isinstance(cont.ty, TList) or p is None:
+                    raise Unsupported("del of a slice of %s" % cont.ty)
+                ln = list_len(cont)
+                lo, hi = self.slice_bounds(t.slice, ln)
+                cnt = z3.If(hi > lo, hi - lo, z3.IntVal(0))
+                res = self.ctx.fresh("delslice", cont.ty)
+                i = z3.Int("dsi!%d" % self.bound_counter())
+                ri = z3.Select(list_arr(res), i)
+                self.ctx.assume(list_len(res) == ln - cnt)
+                self.ctx.assume(z3.ForAll([i], z3.Implies(z3.And(0 <= i, i < ln - cnt),
+                                                          ri == z3.If(i < lo, z3.Select(list_arr(cont), i),
+                                                                      z3.Select(list_arr(cont), i + cnt))),
+                                          patterns=[ri]))
+                self.write_path(p, res)
+                continue
             if isinstance(t, ast.Subscript):
                 p = self.lvalue_path(t.value)
                 cont = self.ev(t.value)
@@ -251,6 +269,14 @@ class StmtMixin(object):
         opn = type(st.op).__name__
         tgt = st.target
         cur = self.ev(tgt)
+        if isinstance(cur.ty, TRef) and opn == "Add" and isinstance(st.value, ast.List):
+            cs = self.cspec(cur.ty.cls)
+            if cs is not None and cs.record and len(st.value.elts) == len(cs.fields):
+                # `cell += [a, b, c]` on a freshly allocated empty record: fills the fields in place
+                items = [self.ev(e) for e in st.value.elts]
+                for i, it in enumerate(items):
+                    self.ctx.write_field(cur.t, cur.ty.cls, str(i), self.ty(cs.fields[str(i)]), it)
+                return
         rhs = self.ev(st.value)
         if isinstance(cur.ty, TRef):
             # in-place operator on an object: __iadd__/__ior__/... or record `end += [..]`
